@@ -46,7 +46,7 @@ TRACE = LAYOUT + ["trace", "thread"]
 PROPS = {
     "C01": {
         "statement": "Scenario.C01_isolation: in every trace of the plan of every registration sequence, two systems open at the same time have non-conflicting declarations",
-        "engines": [plan("plan,flat,funnel,batch"), trace("flat,base,batch,funnel"), plan_nopar("plan,funnel,batch"), plan_release("plan,funnel,batch"),
+        "engines": [plan("plan,flat,funnel,batch,manyres"), trace("flat,base,batch,funnel"), plan_nopar("plan,funnel,batch"), plan_release("plan,funnel,batch"),
                     # "a system that fetches only what it declared": the provided system-data types declare what they borrow
                     {"engine": "sysdata", "args": {}, "quick": {"exhaust-upto": 6, "samples": 12, "pre-samples": 6}, "thorough": {"exhaust-upto": 8, "samples": 100, "pre-samples": 30}}],
         "also": {"C06": ["reads()", "writes()", "borrows"]},
@@ -67,7 +67,9 @@ PROPS = {
     },
     "C04": {
         "statement": "Scenario.C04_exactly_once",
-        "engines": [plan("funnel,plan,batch,tl"), trace("funnel,batch,tl,base", quick=50, **{"partial-modes": True}),
+        "engines": [plan("funnel,plan,batch,tl"), trace("funnel,batch,tl,base,wide", quick=60, **{"partial-modes": True}),
+                    # without the `parallel` feature (`dispatch` is `dispatch_seq` + thread-local systems there)
+                    trace("base,tl,batch", quick=25, thorough=600, nopar=True),
                     # histories with a caught panic between the dispatches
                     trace("flat,batch", quick=20, thorough=600, panics=True), plan_nopar("plan,batch,tl"),
                     # the asynchronous dispatcher: every ordinary system once per dispatch, every thread-local one once per wait
@@ -100,13 +102,16 @@ PROPS = {
     },
     "C07": {
         "statement": "C07_batch_reads/_writes (the batch accessor is exactly controller ∪ inner), C07_conflict_lifts, C07_nested_wf",
-        "engines": [plan("batch,plan,funnel"), trace("batch,kf1", quick=80), plan_nopar("batch")],
+        "engines": [plan("batch,plan,funnel"), trace("batch,kf1", quick=80), plan_nopar("batch"),
+                    # what the controller and the inner systems declare is what the union is made of
+                    {"engine": "sysdata", "args": {}, "quick": {"exhaust-upto": 6, "samples": 12, "pre-samples": 6}, "thorough": {"exhaust-upto": 8, "samples": 100, "pre-samples": 30}}],
+        "also": {"C06": ["reads()", "writes()", "borrows"]},
         "aspects": TRACE,
         "assumptions": [RAYON, CELL],
     },
     "C10": {
         "statement": "C10_skipped_stage_justified (+ simulation by the five-table builder)",
-        "engines": [plan("plan,deps,barriers,funnel,manyres"), plan_nopar("plan,deps,barriers,funnel"), plan_release("plan,deps,barriers,funnel")],
+        "engines": [plan("plan,deps,barriers,funnel,manyres,kf1,wide", quick=1000), plan_nopar("plan,deps,barriers,funnel"), plan_release("plan,deps,barriers,funnel")],
         "aspects": ["layout", "outcome", "maxthreads"],
         "assumptions": [],
     },
@@ -122,7 +127,7 @@ PROPS = {
     },
     "C12": {
         "statement": "Scenario.C12_thread_local_last (order part); thread placement by the trace model",
-        "engines": [plan("tl,plan,kf1"), trace("tl,base,kf1", quick=60),
+        "engines": [plan("tl,plan,kf1"), trace("tl,base,kf1", quick=60), trace("tl,base", quick=25, thorough=600, nopar=True),
                     # the async dispatcher: thread-local systems run inside `wait`, on the caller, once per wait, in
                     # registration order, only for a dispatch that ran to completion (hist = 1: every entry point in
                     # every job state incl. after a panic of an ordinary system; a panic of a thread-local system
@@ -169,7 +174,12 @@ PROPS = {
                     plan("plan,batch", quick=150),
                     # thorough tier: the release-profile build must lay every sequence out like the dev-profile build did
                     {"engine": "invariance", "args": {"process-every": 0, "compare-layouts": "/verif/evidence/.C19.layouts"}, "thorough": {"cases": 6000}, "profile": "release", "tiers": ["thorough"]},
-                    plan_release("plan,deps,barriers,batch")],
+                    plan_release("plan,deps,barriers,batch"),
+                    # a built dispatcher keeps its plan: after dispatches on pools of every size the same systems sit at the same places
+                    trace("wide,funnel,batch", quick=40, thorough=800),
+                    # the declared sets the plan is computed from do not depend on how members are listed or nested
+                    {"engine": "sysdata", "args": {}, "quick": {"exhaust-upto": 6, "samples": 12, "pre-samples": 6}, "thorough": {"exhaust-upto": 8, "samples": 100, "pre-samples": 30}}],
+        "also": {"C06": ["reads()", "writes()"]},
         "aspects": ["layout", "outcome", "debug"],
         "assumptions": ["ahash's per-process random state is what varies between processes"],
     },
